@@ -23,7 +23,8 @@ def shards(tier, seed):
 
 
 def _atoms():
-    return gens.en_atoms(feats=FEATS, bases=('S', 'NP', 'N'), punct=('conj', ',')) + gens.ja_atoms()[:3] + gens.ja_atoms()[7:10]
+    ja = gens.ja_atoms()
+    return gens.en_atoms(feats=FEATS, bases=('S', 'NP', 'N'), punct=('conj', ',')) + ja[:2] + ja[4:6] + ja[7:9] + ja[10:12]
 
 
 def mutations(v, rng, atoms):
